@@ -508,6 +508,12 @@ func c03Run(e *Env, p *c03Plan, subs []simnet.Faults) {
 				return
 			}
 			if rac > 0 {
+				if p.Compress {
+					// the compressing goroutine may be in the middle of a copy when the
+					// compressed stream is discarded: the statement is about closing
+					e.Probe("compressed-stream-read-after-discard")
+					continue
+				}
 				e.Violation("stream-read-after-close", "request %s: body stream read %d times after Close", id, rac)
 				return
 			}
